@@ -66,7 +66,7 @@ def main():
             src, dst = d.split(":")
             os.makedirs(os.path.dirname(os.path.join(wt, dst)), exist_ok=True)
             shutil.copy(os.path.join(a.src, src), os.path.join(wt, dst))
-        cmd = f"go test -count=1 -timeout 20m {a.run}"
+        cmd = f"go test -count=1 -timeout 20m -ldflags=-checklinkname=0 {a.run}"
         rc0, out0 = sh(cmd, cwd=wt)
         meta["ran"].append({"cmd": cmd + "   # unpatched", "exit": rc0, "tail": out0[-600:]})
         meta["demo_passes_without_patch"] = rc0 == 0
